@@ -296,7 +296,8 @@ def observe(project, slot, scope):
 
 
 # ---- submodule chains --------------------------------------------------------
-SUB_PLACEMENTS = ["leaf", "mid", "midused", "anc", "other"]
+SUB_PLACEMENTS = ["leaf", "mid", "midused", "anc", "other", "othermid"]
+# othermid: a submodule that is also called `mid`, but of the unrelated module otherm (own file): never an ancestor of leaf
 SUB_SLOTS = {"vartype": "type", "extends": "type", "ppi-absint": "absint", "call": "proc", "smp": "smp"}
 
 
@@ -345,6 +346,9 @@ def build_sub(slot, depth, present, case):
         mid += ind(["subroutine midhelper()", "end subroutine midhelper"])
     mid += ["end submodule mid"]
     files["src/c_mid.f90"] = "\n".join(mid) + "\n"
+    if "othermid" in present:
+        o_s, o_c = local("othermid")
+        files["src/a2_othermid.f90"] = "\n".join(["submodule (otherm) mid", "  implicit none"] + ind(o_s) + ["contains"] + ind(o_c) + ["end submodule mid"]) + "\n"
     if depth == 2:
         l_s, l_c = local("leaf")
         leaf = ["submodule (anc:mid) leaf", "  implicit none"] + ind(l_s) + ["contains"] + ind(l_c) + ind(refproc) + ["end submodule leaf"]
@@ -373,7 +377,7 @@ def observe_sub(project, slot, depth):
 def gen_sub_cases(tier):
     for slot, kind in SUB_SLOTS.items():
         for depth in (1, 2):
-            pls = [p for p in SUB_PLACEMENTS if not (p == "leaf" and depth == 1)]
+            pls = [p for p in SUB_PLACEMENTS if not (p == "leaf" and depth == 1) and not (p == "othermid" and depth == 1)]
             if kind == "smp":
                 pls = ["anc", "other"]
             if kind == "proc":
